@@ -397,6 +397,17 @@ func (p *Prog) tryResolveType(s, pkg string, fn *ssa.Function) types.Type {
 		}
 		return nil
 	}
+	if strings.HasPrefix(s, "[") {
+		if j := strings.Index(s, "]"); j > 1 {
+			var n int64
+			if _, err := fmt.Sscanf(s[1:j], "%d", &n); err == nil {
+				if el := p.tryResolveType(s[j+1:], pkg, fn); el != nil {
+					return types.NewArray(el, n)
+				}
+			}
+		}
+		return nil
+	}
 	if strings.HasPrefix(s, "*") {
 		if el := p.tryResolveType(s[1:], pkg, fn); el != nil {
 			return types.NewPointer(el)
